@@ -130,8 +130,9 @@ let project = function
   | x -> x
 
 let run (prop : string) (input : S.t) (observed : S.t) : S.t * string =
+  let believed_wf = (match input with S.L (S.A "wfdocs" :: _) -> true | _ -> false) in
   let docs = match input with
-    | S.L (S.A "docs" :: ds) ->
+    | S.L (S.A ("docs" | "wfdocs") :: ds) ->
       List.map (function
           | S.L (S.A "doc" :: mode :: items) -> ((match mode with S.A "ok" -> false | _ -> true), List.map item_of items)
           | x -> failwith ("schema: bad doc " ^ S.to_string x)) ds
@@ -156,6 +157,9 @@ let run (prop : string) (input : S.t) (observed : S.t) : S.t * string =
       if o.panicked then add "fails:load-panicked";
       (match prop with
        | "C13" ->
+         (* a set built rule by rule by the generator must pass the catalogue: the two notions of
+            well-formed are independent *)
+         if believed_wf && not macc then add ("fails:constructed-well-formed-set-refused-by-the-catalogue:" ^ rules_s);
          if macc && not o.acc then add "fails:well-formed-schema-refused"
          else if not macc && o.acc then add ("fails:violation-accepted:" ^ rules_s)
          else if not macc && not broken then begin
@@ -264,3 +268,57 @@ let run17 (input : S.t) (observed : S.t) : S.t * string =
       | _ -> "fails:introspection-differs:shape" in
     (expected, verdict)
   end
+
+(* ---- C15: printed SDL ---- *)
+let bytes_of_hex = function
+  | S.A a when String.length a > 0 && a.[0] = 'x' ->
+    let h = String.sub a 1 (String.length a - 1) in
+    List.init (String.length h / 2) (fun k -> nat_of_int (int_of_string ("0x" ^ String.sub h (2 * k) 2)))
+  | x -> failwith ("c15: bad bytes " ^ S.to_string x)
+let hex_of_bytes l = S.A ("x" ^ String.concat "" (List.map (fun b -> Printf.sprintf "%02x" (int_of_nat b)) l))
+let bytes_of_string s = List.init (String.length s) (fun k -> nat_of_int (Char.code s.[k]))
+
+let run15 (input : S.t) (observed : S.t) : S.t * string =
+  let descs = match input with
+    | S.L [S.A "print"; _; S.L (S.A "descs" :: ds); _] -> List.map bytes_of_hex ds
+    | _ -> failwith "c15: input" in
+  let text0 d = Model.write_desc d O @ bytes_of_string "scalar S\n" in
+  let text1 d = bytes_of_string "type O {\n" @ Model.write_desc d (S O) @ bytes_of_string "f(" @ Model.write_desc d (S (S O))
+                @ bytes_of_string "a: Int): Int\n}\n" in
+  let edescs = List.concat_map (fun d -> [S.L [S.A "d"; S.A "0"; hex_of_bytes (text0 d)]; S.L [S.A "d"; S.A "1"; hex_of_bytes (text1 d)]]) descs in
+  let expected = S.L [S.A "printed"; S.L [S.A "whole"; S.A "1"; S.A "1"; S.A "1"]; S.L [S.A "pertype"; S.A "1"; S.A "1"]; S.L [S.A "ggqlgen"; S.A "1"; S.A "1"]; S.L (S.A "descs" :: edescs)] in
+  let fails = ref [] in
+  let add f = if not (List.mem f !fails) then fails := !fails @ [f] in
+  (match observed with
+   | S.L [S.A "printed"; S.L [S.A "whole"; p; s; t]; S.L [S.A "pertype"; pp; ps]; S.L [S.A "ggqlgen"; gw; ge]; S.L (S.A "descs" :: ods); _] ->
+     if S.int gw = 0 then add "fails:ggqlgen-rewrite-loses-or-alters-the-schema";
+     if S.int ge = 0 then add "fails:ggqlgen-embed-loses-or-alters-the-schema";
+     if S.int p = 0 then add "fails:printed-schema-is-refused"
+     else begin
+       if S.int s = 0 then add "fails:printed-schema-defines-another-schema";
+       if S.int t = 0 then add "fails:printing-again-gives-another-text"
+     end;
+     if S.int pp = 0 then add "fails:per-type-printed-form-is-refused"
+     else if S.int ps = 0 then add "fails:per-type-printed-form-defines-another-schema";
+     (* what the library printed for each description reads back, with the model's reader, as that description *)
+     let rec skip_ws = function b :: r when int_of_nat b = 10 || int_of_nat b = 32 -> skip_ws r | l -> l in
+     let rec go ds ods = match ds, ods with
+       | d :: ds', S.L [S.A "d"; S.A "0"; t0] :: S.L [S.A "d"; S.A "1"; _] :: ods' ->
+         (match Model.read_desc_text (bytes_of_hex t0) with
+          | Some (d', rest) when d' = d && skip_ws rest = bytes_of_string "scalar S\n" -> ()
+          | _ -> add "fails:printed-description-does-not-read-back");
+         (match Model.read_desc_text (text0 d) with
+          | Some (d', rest) when d' = d && skip_ws rest = bytes_of_string "scalar S\n" -> ()
+          | _ -> add "fails:model-description-does-not-read-back");
+         go ds' ods'
+       | [], [] -> ()
+       | _ -> add "fails:description-count" in
+     go descs ods
+   | S.L (S.A "panic" :: _) -> add "fails:printing-panicked"
+   | S.L (S.A "load-failed" :: _) -> add "fails:generated-schema-refused"
+   | _ -> add "fails:shape");
+  (expected, match !fails with [] -> "holds" | f :: _ -> f)
+
+let project15 = function
+  | S.L [S.A "printed"; w; p; g; d; _] -> S.L [S.A "printed"; w; p; g; d]
+  | x -> x
